@@ -53,8 +53,13 @@ PROPS = {
                 notes=[]),
     'C14': dict(gen_targets=READER_TARGETS, pins=READER_PINS + COORD_PINS, harness=['reads.py', 'coords.py'], trusted=[],
                 assumptions=['by-number / by-coordinate entry points (coord_to_index + the ordinal methods) are pinned and checked by the direct oracle coords.py; the ordinal methods are proved']),
-    'C07': dict(gen_targets=READER_TARGETS, pins=READER_PINS, harness='reads.py', trusted=[],
-                assumptions=['I/O traces of model and implementation are compared after coalescing adjacent ranges']),
+    'C07': dict(gen_targets=READER_TARGETS + ['OpenIO', 'Headers', 'Caches'], pins=READER_PINS + pins_of('C07'),
+                harness=['reads.py', 'iocost.py'],
+                trusted=['tools/genx_openio.py (fail-closed extraction of the file accesses of opening, preload, the range-read choke point, gen_trace_header, the chunk key of get_trace and the diagonal loops, plus a census that no other statement of read.py / loader.py touches the file)',
+                         'functools.lru_cache semantics (hit: no call; miss: call, insert, evict least recently used) as modelled in coq/Model/Caches.v'],
+                assumptions=['I/O traces of model and implementation are compared after coalescing adjacent ranges',
+                             'Props/C07c.v: requests are those seen above read_range; the blob backend is covered as "one request per range read with the same (offset, length)" and executed against an in-memory blob stand-in only',
+                             'whole-array header paths (load_all_headers=True, irregular files) are outside the 4-bytes-per-array statement, as in the property text (regular file)']),
     'C03': dict(gen_targets=['Version', 'Header', 'Producer', 'Reader', 'Utils', 'Cropping', 'Reblock'],
                 pins=['conversion_utils.make_header_numpy', 'conversion_utils.make_header_seismic_file'] + pins_of('C10') + pins_of('C12'),
                 harness=['version.py', 'container.py'],
